@@ -29,7 +29,7 @@ func selftest(r *evid.Run) {
 		{"MC_Io", "MC_C14_asbuilt.cfg", ""},
 		{"MC_Pipe", "MC_Pipe_asbuilt_leak.cfg", "NoStuck"},
 		{"MC_Pipe", "MC_Pipe_asbuilt_nil.cfg", ""},
-		{"MC_Pipe", "MC_Pipe_asbuilt_feeder.cfg", "NoStuck"},
+		{"MC_Pipe", "MC_Pipe_asbuilt_feeder.cfg", ""}, // NoStuck or NilMeansComplete, whichever TLC meets first
 		{"MC_Pipe", "MC_Pipe_live_asbuilt.cfg", ""}, // Termination/NoLeak under fairness
 		{"MC_Cli", "MC_C16_asbuilt.cfg", "TruthfulExit"},
 		{"MC_PS", "MC_PS_asbuilt.cfg", "SplitAgreement"},
